@@ -8,7 +8,7 @@ use crate::buffer::kverif::*;
 use crate::color::Color;
 use crate::kv::*;
 use crate::tabs::kverif::{any_tabs, tabs_vec};
-use crate::{kv_cover, kv_end};
+use crate::{kv_assert, kv_cover, kv_end};
 
 pub(crate) const SYM: usize = usize::MAX;
 
@@ -309,84 +309,84 @@ pub(crate) fn tab_witness(t: &Terminal) -> TabWit {
 /// the specifically tagged ones belong to that property only.
 pub(crate) fn frame(pre: &Snap, t: &Terminal, a: &Allow, tw: &TabWit) {
     let s = snap(t);
-    assert!(s.cols == pre.cols && s.rows == pre.rows, "[FR][C02] the size changes only by resize");
+    kv_assert!(s.cols == pre.cols && s.rows == pre.rows, "[FR][C02] the size changes only by resize");
     if !a.cursor {
-        assert!(s.col == pre.col && s.row == pre.row && s.pending_wrap == pre.pending_wrap, "[FR] the cursor does not move");
+        kv_assert!(s.col == pre.col && s.row == pre.row && s.pending_wrap == pre.pending_wrap, "[FR] the cursor does not move");
     }
     if !a.visible {
-        assert!(s.visible == pre.visible, "[FR] cursor visibility is unchanged");
+        kv_assert!(s.visible == pre.visible, "[FR] cursor visibility is unchanged");
     }
     if !a.pen {
-        assert!(s.pen == pre.pen, "[FR][C08] the pen is unchanged");
+        kv_assert!(s.pen == pre.pen, "[FR][C08] the pen is unchanged");
     }
     if !a.charsets {
-        assert!(
+        kv_assert!(
             s.g0_drawing == pre.g0_drawing && s.g1_drawing == pre.g1_drawing && s.active_charset == pre.active_charset,
             "[FR] character sets are unchanged"
         );
     }
     if !a.modes {
-        assert!(
+        kv_assert!(
             s.insert == pre.insert && s.origin == pre.origin && s.auto_wrap == pre.auto_wrap && s.new_line == pre.new_line && s.app_keys == pre.app_keys,
             "[FR] modes are unchanged"
         );
     }
     if !a.margins {
-        assert!(s.top == pre.top && s.bottom == pre.bottom, "[FR] margins are unchanged");
+        kv_assert!(s.top == pre.top && s.bottom == pre.bottom, "[FR] margins are unchanged");
     }
     if !a.saved {
-        assert!(s.saved == pre.saved, "[C17] the saved cursor context of the active screen is untouched");
-        assert!(s.alt_saved == pre.alt_saved, "[C17][C16] the saved cursor context of the other screen is untouched");
-        assert!(s.alt == pre.alt, "[FR] the active screen does not switch");
+        kv_assert!(s.saved == pre.saved, "[C17] the saved cursor context of the active screen is untouched");
+        kv_assert!(s.alt_saved == pre.alt_saved, "[C17][C16] the saved cursor context of the other screen is untouched");
+        kv_assert!(s.alt == pre.alt, "[FR] the active screen does not switch");
     }
     if !a.tabs {
-        assert!(s.tabs_len == pre.tabs_len, "[FR] tab stops are unchanged");
+        kv_assert!(s.tabs_len == pre.tabs_len, "[FR] tab stops are unchanged");
         if pre.tabs_len > 0 {
-            assert!(tabs_vec(&t.tabs)[tw.j] == tw.v, "[FR] tab stops are unchanged");
+            kv_assert!(tabs_vec(&t.tabs)[tw.j] == tw.v, "[FR] tab stops are unchanged");
         }
     }
     if !a.len {
-        assert!(s.len == pre.len, "[FR][C06][C14] no line is added to or removed from lines()");
+        kv_assert!(s.len == pre.len, "[FR][C06][C14] no line is added to or removed from lines()");
     }
-    assert!(s.other_len == pre.other_len && s.other_rows == pre.other_rows && s.other_trim_needed == pre.other_trim_needed, "[C16][C14] the parked screen keeps its lines");
-    assert!(!t.xtwinops, "[FR] XTWINOPS stays disabled");
+    kv_assert!(s.other_len == pre.other_len && s.other_rows == pre.other_rows && s.other_trim_needed == pre.other_trim_needed, "[C16][C14] the parked screen keeps its lines");
+    kv_assert!(!t.xtwinops, "[FR] XTWINOPS stays disabled");
 }
 
 // ------------------------------------------------------------------ InvT after the step (C02)
 
 pub(crate) fn assert_inv(t: &Terminal) {
-    assert!(t.cols >= 1 && t.rows >= 1, "[C02][C01] at least one column and one row");
-    assert!(t.buffer.cols == t.cols && t.buffer.rows == t.rows, "[C02][C01] the active buffer has the terminal's geometry");
+    kv_assert!(t.cols >= 1 && t.rows >= 1, "[C02][C01] at least one column and one row");
+    kv_assert!(t.buffer.cols == t.cols && t.buffer.rows == t.rows, "[C02][C01] the active buffer has the terminal's geometry");
     assert_buffer_inv(&t.buffer);
     assert_buffer_inv(&t.other_buffer);
-    assert!(t.cursor.row < t.rows, "[C02][C01] cursor row < rows");
-    assert!(t.cursor.col <= t.cols, "[C02][C01] cursor col <= cols");
-    assert!(t.pending_wrap == (t.cursor.col == t.cols), "[C02][C01] col == cols exactly in the wrap-pending position");
-    assert!(
+    kv_assert!(t.cursor.row < t.rows, "[C02][C01] cursor row < rows");
+    kv_assert!(t.cursor.col <= t.cols, "[C02][C01] cursor col <= cols");
+    kv_assert!(t.pending_wrap == (t.cursor.col == t.cols), "[C02][C01] col == cols exactly in the wrap-pending position");
+    kv_assert!(
         t.bottom_margin < t.rows && (t.top_margin < t.bottom_margin || (t.rows == 1 && t.top_margin == 0 && t.bottom_margin == 0)),
         "[C02][C01][C06] margins form a valid region inside the screen"
     );
-    assert!(t.saved_ctx.cursor_col < t.cols && t.saved_ctx.cursor_row < t.rows, "[C17][C02][C01] the saved position lies inside the screen");
-    assert!(
+    kv_assert!(t.saved_ctx.cursor_col < t.cols && t.saved_ctx.cursor_row < t.rows, "[C17][C02][C01] the saved position lies inside the screen");
+    kv_assert!(
         t.alternate_saved_ctx.cursor_col < t.other_buffer.cols && t.alternate_saved_ctx.cursor_row < t.other_buffer.rows,
         "[C17][C02][C01] the other screen's saved position lies inside that screen"
     );
-    assert!(dl_len(&t.dirty_lines) == t.rows, "[C02][C01] one changed-line flag per row");
-    assert!(t.active_charset < 2, "[C02][C01] active charset index is 0 or 1");
-    assert!(pen_ok(&t.pen), "[C02][C01] pen attribute bits stay within the five attributes");
+    kv_assert!(dl_len(&t.dirty_lines) == t.rows, "[C02][C01] one changed-line flag per row");
+    kv_assert!(t.active_charset < 2, "[C02][C01] active charset index is 0 or 1");
+    kv_assert!(pen_ok(&t.pen), "[C02][C01] pen attribute bits stay within the five attributes");
     // tabs: strictly increasing inside 1..cols-1
     let v = tabs_vec(&t.tabs);
     if !v.is_empty() {
         let j = any_usize();
         assume(j < v.len());
-        assert!(v[j] >= 1 && v[j] < t.cols, "[C02][C01][C18] tab stops lie inside the screen");
+        kv_assert!(v[j] >= 1 && v[j] < t.cols, "[C02][C01][C18] tab stops lie inside the screen");
         if j + 1 < v.len() {
-            assert!(v[j] < v[j + 1], "[C02][C01][C18] tab stops are strictly increasing");
+            kv_assert!(v[j] < v[j + 1], "[C02][C01][C18] tab stops are strictly increasing");
         }
     }
     // limits follow the active screen
     let (act, oth) = if t.active_buffer_type == BufferType::Primary { (t.scrollback_limit, Some(0)) } else { (Some(0), t.scrollback_limit) };
-    assert!(b_limit(&t.buffer).map(|l| l.0) == act && b_limit(&t.other_buffer).map(|l| l.0) == oth, "[C13][C01] each screen keeps its own scrollback limit");
+    kv_assert!(b_limit(&t.buffer).map(|l| l.0) == act && b_limit(&t.other_buffer).map(|l| l.0) == oth, "[C13][C01] each screen keeps its own scrollback limit");
 }
 
 // ------------------------------------------------------------------ cell / mark witnesses
@@ -543,15 +543,15 @@ macro_rules! check_exp {
     ($t:expr, $w:expr, $e:expr, $cellmsg:literal, $markmsg:literal) => {{
         let post = cell_at($t, $w.i, $w.c);
         if let Some(c) = $e.cell {
-            assert!(post == c, $cellmsg);
+            kv_assert!(post == c, $cellmsg);
         }
         if let Some(m) = $e.mark {
-            assert!(mark_at($t, $w.i) == m, $markmsg);
+            kv_assert!(mark_at($t, $w.i) == m, $markmsg);
         }
         let len = b_len(&$t.buffer);
         if let Some(vb) = $e.view_before {
             if post != vb {
-                assert!(dl_get(&$t.dirty_lines, $w.i - (len - $t.rows)), "[C15] a visible row whose cells changed is reported as changed");
+                kv_assert!(dl_get(&$t.dirty_lines, $w.i - (len - $t.rows)), "[C15] a visible row whose cells changed is reported as changed");
             }
         }
     }};
@@ -801,104 +801,104 @@ pub(crate) fn t_nocell(c: TCfg, op: NoCellOp) {
     let vert_col_ok = col < cols && (pre.col >= cols || col == pre.col);
     match op {
         Bs => {
-            assert!(row == pre.row && !pw, "[C05] BS stays on its row and drops a pending wrap");
-            assert!(col == if hcol >= 1 { hcol - 1 } else { 0 }, "[C05] BS moves one column left and stops at the first column");
+            kv_assert!(row == pre.row && !pw, "[C05] BS stays on its row and drops a pending wrap");
+            kv_assert!(col == if hcol >= 1 { hcol - 1 } else { 0 }, "[C05] BS moves one column left and stops at the first column");
         }
         Cr => {
-            assert!(col == 0 && row == pre.row && !pw, "[C05] CR moves to the first column of the same row");
+            kv_assert!(col == 0 && row == pre.row && !pw, "[C05] CR moves to the first column of the same row");
         }
         Cuf => {
-            assert!(row == pre.row && !pw, "[C05] CUF stays on its row");
-            assert!(col == if hcol + k <= lastc { hcol + k } else { lastc }, "[C05] CUF moves n columns right and stops at the last column");
+            kv_assert!(row == pre.row && !pw, "[C05] CUF stays on its row");
+            kv_assert!(col == if hcol + k <= lastc { hcol + k } else { lastc }, "[C05] CUF moves n columns right and stops at the last column");
         }
         Cub => {
-            assert!(row == pre.row && !pw, "[C05] CUB stays on its row");
-            assert!(col == if hcol >= k { hcol - k } else { 0 }, "[C05] CUB moves n columns left and stops at the first column");
+            kv_assert!(row == pre.row && !pw, "[C05] CUB stays on its row");
+            kv_assert!(col == if hcol >= k { hcol - k } else { 0 }, "[C05] CUB moves n columns left and stops at the first column");
         }
         Cuu => {
-            assert!(row == up_to(pre.row, k), "[C05] CUU moves n rows up, stopping at the top margin unless it starts above it");
-            assert!(vert_col_ok && !pw, "[C05][C02] a vertical move keeps the column and leaves the wrap-pending position");
+            kv_assert!(row == up_to(pre.row, k), "[C05] CUU moves n rows up, stopping at the top margin unless it starts above it");
+            kv_assert!(vert_col_ok && !pw, "[C05][C02] a vertical move keeps the column and leaves the wrap-pending position");
         }
         Cud | Vpr => {
-            assert!(row == down_to(pre.row, k), "[C05] CUD/VPR move n rows down, stopping at the bottom margin unless they start below it");
-            assert!(vert_col_ok && !pw, "[C05][C02] a vertical move keeps the column and leaves the wrap-pending position");
+            kv_assert!(row == down_to(pre.row, k), "[C05] CUD/VPR move n rows down, stopping at the bottom margin unless they start below it");
+            kv_assert!(vert_col_ok && !pw, "[C05][C02] a vertical move keeps the column and leaves the wrap-pending position");
         }
         Cnl => {
-            assert!(row == down_to(pre.row, k) && col == 0 && !pw, "[C05] CNL moves n rows down to the first column");
+            kv_assert!(row == down_to(pre.row, k) && col == 0 && !pw, "[C05] CNL moves n rows down to the first column");
         }
         Cpl => {
-            assert!(row == up_to(pre.row, k) && col == 0 && !pw, "[C05] CPL moves n rows up to the first column");
+            kv_assert!(row == up_to(pre.row, k) && col == 0 && !pw, "[C05] CPL moves n rows up to the first column");
         }
         Cha => {
-            assert!(row == pre.row && !pw, "[C05] CHA stays on its row");
-            assert!(col == if k - 1 <= lastc { k - 1 } else { lastc }, "[C05] CHA places the cursor at the 1-based column, clamped to the screen");
+            kv_assert!(row == pre.row && !pw, "[C05] CHA stays on its row");
+            kv_assert!(col == if k - 1 <= lastc { k - 1 } else { lastc }, "[C05] CHA places the cursor at the 1-based column, clamped to the screen");
         }
         Vpa => {
             let want = if rtop + (k - 1) <= rbot { rtop + (k - 1) } else { rbot };
-            assert!(row == want, "[C05] VPA places the cursor at the 1-based row, clamped to the screen or (origin mode) the region");
-            assert!(vert_col_ok && !pw, "[C05][C02] a vertical move keeps the column and leaves the wrap-pending position");
+            kv_assert!(row == want, "[C05] VPA places the cursor at the 1-based row, clamped to the screen or (origin mode) the region");
+            kv_assert!(vert_col_ok && !pw, "[C05][C02] a vertical move keeps the column and leaves the wrap-pending position");
         }
         Cup => {
             let kc = n1(m);
             let want_r = if rtop + (k - 1) <= rbot { rtop + (k - 1) } else { rbot };
-            assert!(row == want_r, "[C05] CUP places the cursor at the 1-based row, clamped to the screen or (origin mode) the region");
-            assert!(col == if kc - 1 <= lastc { kc - 1 } else { lastc } && !pw, "[C05] CUP places the cursor at the 1-based column, clamped to the screen");
+            kv_assert!(row == want_r, "[C05] CUP places the cursor at the 1-based row, clamped to the screen or (origin mode) the region");
+            kv_assert!(col == if kc - 1 <= lastc { kc - 1 } else { lastc } && !pw, "[C05] CUP places the cursor at the 1-based column, clamped to the screen");
         }
         Ht | Cht => {
-            assert!(row == pre.row && !pw, "[C05][C18] HT/CHT stay on the row");
-            assert!(col == fwd_tab, "[C05][C18] HT/CHT move to the n-th next tab stop or the last column");
+            kv_assert!(row == pre.row && !pw, "[C05][C18] HT/CHT stay on the row");
+            kv_assert!(col == fwd_tab, "[C05][C18] HT/CHT move to the n-th next tab stop or the last column");
         }
         Cbt => {
-            assert!(row == pre.row && !pw, "[C05][C18] CBT stays on the row");
+            kv_assert!(row == pre.row && !pw, "[C05][C18] CBT stays on the row");
             if !(pre.col >= cols && probe_before && probe == lastc) {
                 // a stop in the last column under a wrap-pending cursor is left open
                 if pre.col < cols {
-                    assert!(col == back_tab, "[C05][C18] CBT moves to the n-th previous tab stop or the first column");
+                    kv_assert!(col == back_tab, "[C05][C18] CBT moves to the n-th previous tab stop or the first column");
                 }
             }
-            assert!(col <= hcol, "[C05][C18] CBT never moves right");
+            kv_assert!(col <= hcol, "[C05][C18] CBT never moves right");
         }
         LfOffMargin | NelOffMargin => {
             let want = if pre.row < rows - 1 { pre.row + 1 } else { pre.row };
-            assert!(row == want, "[C05] LF/IND/NEL off the bottom margin move down exactly one row (not past the last row)");
+            kv_assert!(row == want, "[C05] LF/IND/NEL off the bottom margin move down exactly one row (not past the last row)");
             if op == NelOffMargin || pre.new_line {
-                assert!(col == 0 && !pw, "[C05] NEL (and LF in new-line mode) return to the first column");
+                kv_assert!(col == 0 && !pw, "[C05] NEL (and LF in new-line mode) return to the first column");
             } else if pre.row < rows - 1 {
-                assert!(vert_col_ok && !pw, "[C05][C02] LF keeps the column and leaves the wrap-pending position");
+                kv_assert!(vert_col_ok && !pw, "[C05][C02] LF keeps the column and leaves the wrap-pending position");
             }
         }
         RiOffMargin => {
             let want = if pre.row > 0 { pre.row - 1 } else { 0 };
-            assert!(row == want, "[C05] RI off the top margin moves up exactly one row whatever the origin mode");
+            kv_assert!(row == want, "[C05] RI off the top margin moves up exactly one row whatever the origin mode");
             if pre.row > 0 {
-                assert!(vert_col_ok && !pw, "[C05][C02] RI keeps the column and leaves the wrap-pending position");
+                kv_assert!(vert_col_ok && !pw, "[C05][C02] RI keeps the column and leaves the wrap-pending position");
             }
         }
         Decstbm => {
             let tt = n1(n) - 1;
             let bb = (if m == 0 { rows } else { m as usize }) - 1;
             if tt < bb && bb < rows {
-                assert!(t.top_margin == tt && t.bottom_margin == bb, "[C06] DECSTBM takes effect for 1 <= top < bottom <= rows");
+                kv_assert!(t.top_margin == tt && t.bottom_margin == bb, "[C06] DECSTBM takes effect for 1 <= top < bottom <= rows");
             } else {
-                assert!(t.top_margin == pre.top && t.bottom_margin == pre.bottom, "[C06] an invalid DECSTBM leaves the margins as they were");
+                kv_assert!(t.top_margin == pre.top && t.bottom_margin == pre.bottom, "[C06] an invalid DECSTBM leaves the margins as they were");
             }
             let home = if pre.origin { t.top_margin } else { 0 };
-            assert!(col == 0 && row == home && !pw, "[C05] setting margins homes the cursor");
+            kv_assert!(col == 0 && row == home && !pw, "[C05] setting margins homes the cursor");
         }
         OriginSet | OriginReset => {
-            assert!(t.origin_mode == (op == OriginSet), "[C05] DECOM sets / resets origin mode");
+            kv_assert!(t.origin_mode == (op == OriginSet), "[C05] DECOM sets / resets origin mode");
             let home = if op == OriginSet { pre.top } else { 0 };
-            assert!(col == 0 && row == home && !pw, "[C05] toggling origin mode homes the cursor");
-            assert!(t.insert_mode == pre.insert && t.auto_wrap_mode == pre.auto_wrap && t.new_line_mode == pre.new_line, "[FR] other modes are unchanged");
+            kv_assert!(col == 0 && row == home && !pw, "[C05] toggling origin mode homes the cursor");
+            kv_assert!(t.insert_mode == pre.insert && t.auto_wrap_mode == pre.auto_wrap && t.new_line_mode == pre.new_line, "[FR] other modes are unchanged");
         }
         So | Si => {
-            assert!(t.active_charset == if op == So { 1 } else { 0 }, "[C04] SO / SI select G1 / G0");
-            assert!((t.charsets[0] == Charset::Drawing) == pre.g0_drawing && (t.charsets[1] == Charset::Drawing) == pre.g1_drawing, "[FR] designations are unchanged");
+            kv_assert!(t.active_charset == if op == So { 1 } else { 0 }, "[C04] SO / SI select G1 / G0");
+            kv_assert!((t.charsets[0] == Charset::Drawing) == pre.g0_drawing && (t.charsets[1] == Charset::Drawing) == pre.g1_drawing, "[FR] designations are unchanged");
         }
         Gzd4 | G1d4 => {
             let (g0, g1) = if op == Gzd4 { (charset_arg_drawing, pre.g1_drawing) } else { (pre.g0_drawing, charset_arg_drawing) };
-            assert!((t.charsets[0] == Charset::Drawing) == g0 && (t.charsets[1] == Charset::Drawing) == g1, "[C04] charset designation changes exactly the designated slot");
-            assert!(t.active_charset == pre.active_charset, "[FR] the active slot is unchanged");
+            kv_assert!((t.charsets[0] == Charset::Drawing) == g0 && (t.charsets[1] == Charset::Drawing) == g1, "[C04] charset designation changes exactly the designated slot");
+            kv_assert!(t.active_charset == pre.active_charset, "[FR] the active slot is unchanged");
         }
         Hts | CtcSet | CtcClearCol | TbcCol | CtcClearAll | TbcAll => {
             let mut probe_after = false;
@@ -912,35 +912,35 @@ pub(crate) fn t_nocell(c: TCfg, op: NoCellOp) {
                 CtcClearCol | TbcCol => probe_before && probe != pre.col,
                 _ => false,
             };
-            assert!(probe_after == want, "[C18] HTS/CTC set and TBC/CTC clear exactly the stop at the cursor column, or all stops");
+            kv_assert!(probe_after == want, "[C18] HTS/CTC set and TBC/CTC clear exactly the stop at the cursor column, or all stops");
         }
         Sm | Rm => {
             let touches_insert = mode_sel & 1 == 0 || mode_sel & 2 == 0;
             let touches_nl = mode_sel & 1 != 0 || mode_sel & 2 != 0;
             let val = op == Sm;
-            assert!(t.insert_mode == if touches_insert { val } else { pre.insert }, "[C04] SM/RM 4 switch insert mode");
-            assert!(t.new_line_mode == if touches_nl { val } else { pre.new_line }, "[C05] SM/RM 20 switch new-line mode");
-            assert!(t.origin_mode == pre.origin && t.auto_wrap_mode == pre.auto_wrap, "[FR] other modes are unchanged");
+            kv_assert!(t.insert_mode == if touches_insert { val } else { pre.insert }, "[C04] SM/RM 4 switch insert mode");
+            kv_assert!(t.new_line_mode == if touches_nl { val } else { pre.new_line }, "[C05] SM/RM 20 switch new-line mode");
+            kv_assert!(t.origin_mode == pre.origin && t.auto_wrap_mode == pre.auto_wrap, "[FR] other modes are unchanged");
         }
         DecsetMisc | DecrstMisc => {
             let val = op == DecsetMisc;
             let (a, b) = (mode_sel % 3, (mode_sel / 3) % 3);
             let has = |x: u8| a == x || b == x;
-            assert!((t.cursor_keys_mode == CursorKeysMode::Application) == if has(0) { val } else { pre.app_keys }, "[FR] DECCKM switches exactly the cursor-key mode");
-            assert!(t.auto_wrap_mode == if has(1) { val } else { pre.auto_wrap }, "[C04] DECAWM switches exactly auto-wrap");
-            assert!(t.cursor.visible == if has(2) { val } else { pre.visible }, "[FR] DECTCEM switches exactly the cursor visibility");
-            assert!(t.insert_mode == pre.insert && t.origin_mode == pre.origin && t.new_line_mode == pre.new_line, "[FR] other modes are unchanged");
+            kv_assert!((t.cursor_keys_mode == CursorKeysMode::Application) == if has(0) { val } else { pre.app_keys }, "[FR] DECCKM switches exactly the cursor-key mode");
+            kv_assert!(t.auto_wrap_mode == if has(1) { val } else { pre.auto_wrap }, "[C04] DECAWM switches exactly auto-wrap");
+            kv_assert!(t.cursor.visible == if has(2) { val } else { pre.visible }, "[FR] DECTCEM switches exactly the cursor visibility");
+            kv_assert!(t.insert_mode == pre.insert && t.origin_mode == pre.origin && t.new_line_mode == pre.new_line, "[FR] other modes are unchanged");
         }
         Ed3 | XtwinopsOff => {}
     }
     frame(&pre, &t, &allow, &tw);
     check_exp!(&t, &w, e, "[C05][C20][FR] a command that is not an editing command changes no cell", "[FR] a command that is not an editing command changes no soft-wrap mark");
     if op == Ed3 || op == XtwinopsOff {
-        assert!(!dl_get(&t.dirty_lines, any_in(0, c.rows - 1)), "[C20] no changed line is reported by an inert sequence");
+        kv_assert!(!dl_get(&t.dirty_lines, any_in(0, c.rows - 1)), "[C20] no changed line is reported by an inert sequence");
     }
     if c.big {
-        assert!(t.cursor.row < rows && t.cursor.col <= cols && t.pending_wrap == (t.cursor.col == cols), "[C02][C05] the cursor stays inside a screen of any size");
-        assert!(t.bottom_margin < rows && (t.top_margin < t.bottom_margin || rows == 1), "[C02][C06] margins stay a valid region on a screen of any size");
+        kv_assert!(t.cursor.row < rows && t.cursor.col <= cols && t.pending_wrap == (t.cursor.col == cols), "[C02][C05] the cursor stays inside a screen of any size");
+        kv_assert!(t.bottom_margin < rows && (t.top_margin < t.bottom_margin || rows == 1), "[C02][C06] margins stay a valid region on a screen of any size");
         kv_cover!(rows > 100000 && pre.row > 70000 && n == 65535, "a parameter of 65535 on a very tall screen");
     } else {
         assert_inv(&t);
@@ -1063,31 +1063,31 @@ pub(crate) fn t_scroll(c: TCfg, op: ScrollOp, nfix: u32) {
         Il => t.execute(Function::Il(n)),
         Dl => t.execute(Function::Dl(n)),
     }
-    assert!(b_len(&t.buffer) == post_len, "[C06][C14] lines() grows by exactly the rows scrolled off the top of a range that starts at the first row, and by nothing otherwise");
+    kv_assert!(b_len(&t.buffer) == post_len, "[C06][C14] lines() grows by exactly the rows scrolled off the top of a range that starts at the first row, and by nothing otherwise");
     check_exp!(&t, &w, e, "[C06][C08][C14] scrolling shifts exactly the rows of its range by n, blanks the vacated rows in the current pen and leaves every other line (scrollback included) unchanged", "[C06][C14] scrolling keeps the soft-wrap marks of the lines it moves or leaves alone (scrollback included)");
     // cursor
     let (col, crow, pw) = (t.cursor.col, t.cursor.row, t.pending_wrap);
     match op {
         Su | Sd | Il | Dl => {
-            assert!(col == pre.col && crow == pre.row && pw == pre.pending_wrap, "[C06] SU/SD/IL/DL do not move the cursor");
+            kv_assert!(col == pre.col && crow == pre.row && pw == pre.pending_wrap, "[C06] SU/SD/IL/DL do not move the cursor");
         }
         Lf | Nel => {
             if scrolls {
-                assert!(crow == pre.row, "[C06] LF/NEL on the bottom margin scroll instead of moving");
+                kv_assert!(crow == pre.row, "[C06] LF/NEL on the bottom margin scroll instead of moving");
             } else {
-                assert!(crow == if pre.row < rows - 1 { pre.row + 1 } else { pre.row }, "[C05] LF/NEL off the bottom margin move down exactly one row");
+                kv_assert!(crow == if pre.row < rows - 1 { pre.row + 1 } else { pre.row }, "[C05] LF/NEL off the bottom margin move down exactly one row");
             }
             if op == Nel || pre.new_line {
-                assert!(col == 0 && !pw, "[C05] NEL (and LF in new-line mode) return to the first column");
+                kv_assert!(col == 0 && !pw, "[C05] NEL (and LF in new-line mode) return to the first column");
             } else {
-                assert!(col == pre.col || (pre.col == cols && col == cols - 1), "[C05][C02] LF keeps the column and leaves the wrap-pending position");
+                kv_assert!(col == pre.col || (pre.col == cols && col == cols - 1), "[C05][C02] LF keeps the column and leaves the wrap-pending position");
             }
         }
         Ri => {
             if scrolls {
-                assert!(crow == pre.row && col == pre.col, "[C06] RI on the top margin scrolls instead of moving");
+                kv_assert!(crow == pre.row && col == pre.col, "[C06] RI on the top margin scrolls instead of moving");
             } else {
-                assert!(crow == if pre.row > 0 { pre.row - 1 } else { 0 }, "[C05] RI off the top margin moves up exactly one row whatever the origin mode");
+                kv_assert!(crow == if pre.row > 0 { pre.row - 1 } else { 0 }, "[C05] RI off the top margin moves up exactly one row whatever the origin mode");
             }
         }
     }
@@ -1285,7 +1285,7 @@ pub(crate) fn t_edit(c: TCfg, op: EditOp) {
     if op == Dch {
         allow.cursor = true;
         let c0 = if col >= cols { cols - 1 } else { col };
-        assert!(t.cursor.col == c0 && t.cursor.row == row && !t.pending_wrap, "[C07] DCH leaves the wrap-pending column first and otherwise keeps the cursor");
+        kv_assert!(t.cursor.col == c0 && t.cursor.row == row && !t.pending_wrap, "[C07] DCH leaves the wrap-pending column first and otherwise keeps the cursor");
     }
     frame(&pre, &t, &allow, &tw);
     assert_inv(&t);
@@ -1324,7 +1324,7 @@ pub(crate) fn t_charset() {
     let drawing = any_bool();
     let cs = if drawing { Charset::Drawing } else { Charset::Ascii };
     let got = cs.translate(ch);
-    assert!(glyph_ok(ch, drawing, got), "[C04] DEC special graphics maps 0x60-0x7E to the VT100 line-drawing glyphs and nothing else");
+    kv_assert!(glyph_ok(ch, drawing, got), "[C04] DEC special graphics maps 0x60-0x7E to the VT100 line-drawing glyphs and nothing else");
     kv_cover!(drawing && ch == 'q', "horizontal line");
     kv_end!();
 }
@@ -1398,22 +1398,22 @@ pub(crate) fn t_print_or_rep(c: TCfg, rep_arg: u32) {
         t.execute(Function::Print(ch));
     }
     if !corner {
-        assert!(b_len(&t.buffer) == post_len, "[C04][C06][C14] printing adds a line only by a wrap-scroll of a region that starts at the first row");
+        kv_assert!(b_len(&t.buffer) == post_len, "[C04][C06][C14] printing adds a line only by a wrap-scroll of a region that starts at the first row");
         let tcell = cell_at(&t, o2 + row2, tc);
-        assert!(glyph_ok(ch, drawing, tcell.char()), "[C04] the character is written, translated through the active character set, into the cell under the cursor");
-        assert!(*tcell.pen() == pre.pen, "[C04][C08] the printed cell carries the current pen");
-        assert!(tcell.pen().foreground() == pre.pen.foreground && tcell.pen().background() == pre.pen.background && tcell.pen().is_bold() == (pre.pen.intensity == Intensity::Bold), "[C08] the printed cell reports the pen through its accessors");
+        kv_assert!(glyph_ok(ch, drawing, tcell.char()), "[C04] the character is written, translated through the active character set, into the cell under the cursor");
+        kv_assert!(*tcell.pen() == pre.pen, "[C04][C08] the printed cell carries the current pen");
+        kv_assert!(tcell.pen().foreground() == pre.pen.foreground && tcell.pen().background() == pre.pen.background && tcell.pen().is_bold() == (pre.pen.intensity == Intensity::Bold), "[C08] the printed cell reports the pen through its accessors");
         check_exp!(&t, &w, e, "[C04] printing changes no other cell (insert mode shifts the rest of the row right, dropping the last cell)", "[C04] printing marks the row it left by auto-wrap as soft-wrapped and changes no other mark");
-        assert!(dl_get(&t.dirty_lines, row2), "[C15] the row printed on is reported as changed");
+        kv_assert!(dl_get(&t.dirty_lines, row2), "[C15] the row printed on is reported as changed");
         // cursor
         if last {
             if pre.auto_wrap {
-                assert!(t.cursor.col == cols && t.pending_wrap && t.cursor.row == row2, "[C04] in the last column the cursor parks in the wrap-pending position");
+                kv_assert!(t.cursor.col == cols && t.pending_wrap && t.cursor.row == row2, "[C04] in the last column the cursor parks in the wrap-pending position");
             } else {
-                assert!(t.cursor.col == col && t.cursor.row == row && t.pending_wrap == pre.pending_wrap, "[C04] with auto-wrap off the cursor keeps overwriting the last column");
+                kv_assert!(t.cursor.col == col && t.cursor.row == row && t.pending_wrap == pre.pending_wrap, "[C04] with auto-wrap off the cursor keeps overwriting the last column");
             }
         } else {
-            assert!(t.cursor.col == col2 + 1 && t.cursor.row == row2 && !t.pending_wrap, "[C04] the cursor advances one column");
+            kv_assert!(t.cursor.col == col2 + 1 && t.cursor.row == row2 && !t.pending_wrap, "[C04] the cursor advances one column");
         }
     }
     let mut allow = Allow::default();
@@ -1485,7 +1485,7 @@ pub(crate) fn t_switch(c: TCfg, op: SwitchOp) {
         Leave1049 => t.execute(Function::Decrst(one_mode(DecMode::SaveCursorAltScreenBuffer))),
     }
     let s = snap(&t);
-    assert!(s.alt == entering, "[C16] 47/1047/1049 h select the alternate screen, l the primary screen");
+    kv_assert!(s.alt == entering, "[C16] 47/1047/1049 h select the alternate screen, l the primary screen");
     let clamp = |x: Ctx| Ctx {
         col: if x.col >= cols { cols - 1 } else { x.col },
         row: if x.row >= rows { rows - 1 } else { x.row },
@@ -1496,68 +1496,68 @@ pub(crate) fn t_switch(c: TCfg, op: SwitchOp) {
     if switches && entering {
         // ---- A-enter
         let saved_primary = if with_cursor { cur_ctx } else { pre.saved };
-        assert!(s.alt_saved == saved_primary, "[C17] the primary screen's saved cursor stays with the primary screen (1049 saves the cursor on entry)");
-        assert!(s.saved == clamp(pre.alt_saved), "[C17][C02][C01] the alternate screen has its own saved cursor, clamped to the current screen");
-        assert!(s.len == rows, "[C13][C16] the alternate screen holds exactly the visible rows");
+        kv_assert!(s.alt_saved == saved_primary, "[C17] the primary screen's saved cursor stays with the primary screen (1049 saves the cursor on entry)");
+        kv_assert!(s.saved == clamp(pre.alt_saved), "[C17][C02][C01] the alternate screen has its own saved cursor, clamped to the current screen");
+        kv_assert!(s.len == rows, "[C13][C16] the alternate screen holds exactly the visible rows");
         let a = any_wit(rows, cols);
-        assert!(is_blank_with(&cell_at(&t, a.i, a.c), &pre.pen) && !mark_at(&t, a.i), "[C16] every entry presents a blank alternate screen filled with the current pen");
+        kv_assert!(is_blank_with(&cell_at(&t, a.i, a.c), &pre.pen) && !mark_at(&t, a.i), "[C16] every entry presents a blank alternate screen filled with the current pen");
         // the primary is parked untouched
-        assert!(s.other_len == pre.len && s.other_rows == rows && s.other_trim_needed == pre.trim_needed, "[C16] entering the alternate screen parks the primary with all its lines");
-        assert!(b_cell(&t.other_buffer, w.i, w.c) == act_cell && b_wrapped(&t.other_buffer, w.i) == act_mark, "[C16] entering the alternate screen leaves the primary's rows and scrollback untouched");
-        assert!(s.col == pre.col && s.row == pre.row && s.pending_wrap == pre.pending_wrap, "[C16] entering the alternate screen does not move the cursor");
-        assert!(dl_get(&t.dirty_lines, any_in(0, rows - 1)), "[C15] a screen switch reports every row as changed");
+        kv_assert!(s.other_len == pre.len && s.other_rows == rows && s.other_trim_needed == pre.trim_needed, "[C16] entering the alternate screen parks the primary with all its lines");
+        kv_assert!(b_cell(&t.other_buffer, w.i, w.c) == act_cell && b_wrapped(&t.other_buffer, w.i) == act_mark, "[C16] entering the alternate screen leaves the primary's rows and scrollback untouched");
+        kv_assert!(s.col == pre.col && s.row == pre.row && s.pending_wrap == pre.pending_wrap, "[C16] entering the alternate screen does not move the cursor");
+        kv_assert!(dl_get(&t.dirty_lines, any_in(0, rows - 1)), "[C15] a screen switch reports every row as changed");
     } else if switches && !entering {
         // ---- A-leave (with a possibly stale parked height: R-switch)
-        assert!(s.saved == clamp(pre.alt_saved), "[C17][C02][C01] leaving restores the primary screen's own saved cursor context slot, clamped to the current screen");
-        assert!(s.alt_saved == pre.saved, "[C17] the alternate screen keeps its own saved cursor");
+        kv_assert!(s.saved == clamp(pre.alt_saved), "[C17][C02][C01] leaving restores the primary screen's own saved cursor context slot, clamped to the current screen");
+        kv_assert!(s.alt_saved == pre.saved, "[C17] the alternate screen keeps its own saved cursor");
         // height-only re-synchronisation keeps every surviving line at its absolute index
         let post_len = s.len;
         if pi < post_len {
-            assert!(cell_at(&t, pi, pc) == parked_cell, "[C16] on return the primary's lines are exactly what they were (at most cut short below the cursor)");
+            kv_assert!(cell_at(&t, pi, pc) == parked_cell, "[C16] on return the primary's lines are exactly what they were (at most cut short below the cursor)");
             if pi + 1 < post_len || prows <= rows {
-                assert!(mark_at(&t, pi) == parked_mark, "[C16] on return the primary's soft-wrap marks are what they were");
+                kv_assert!(mark_at(&t, pi) == parked_mark, "[C16] on return the primary's soft-wrap marks are what they were");
             }
         }
         if prows == rows {
-            assert!(post_len == plen, "[C16] without a resize the primary comes back with all its lines");
+            kv_assert!(post_len == plen, "[C16] without a resize the primary comes back with all its lines");
         } else if prows < rows {
-            assert!(post_len >= plen, "[C16] a taller screen drops no line of the primary");
+            kv_assert!(post_len >= plen, "[C16] a taller screen drops no line of the primary");
         } else {
-            assert!(post_len <= plen && post_len + (prows - rows) >= plen, "[C16] a shorter screen drops at most the rows that no longer fit, and only from the bottom");
+            kv_assert!(post_len <= plen && post_len + (prows - rows) >= plen, "[C16] a shorter screen drops at most the rows that no longer fit, and only from the bottom");
         }
-        assert!(s.row < rows && s.col <= cols && s.pending_wrap == (s.col == cols), "[C16][C02][C01] on return all geometry invariants hold: the cursor lies inside the screen");
-        assert!(!mark_at(&t, post_len - 1), "[C16][C02] on return the last line is not soft-wrapped");
+        kv_assert!(s.row < rows && s.col <= cols && s.pending_wrap == (s.col == cols), "[C16][C02][C01] on return all geometry invariants hold: the cursor lies inside the screen");
+        kv_assert!(!mark_at(&t, post_len - 1), "[C16][C02] on return the last line is not soft-wrapped");
         if with_cursor {
             let sv = pre.alt_saved;
-            assert!(s.pen == sv.pen && s.origin == sv.origin && s.auto_wrap == sv.auto_wrap && !s.pending_wrap, "[C17][C16] 1049 restores the cursor context saved on entry");
-            assert!(s.col == sv.col, "[C17][C16] 1049 restores the saved column");
+            kv_assert!(s.pen == sv.pen && s.origin == sv.origin && s.auto_wrap == sv.auto_wrap && !s.pending_wrap, "[C17][C16] 1049 restores the cursor context saved on entry");
+            kv_assert!(s.col == sv.col, "[C17][C16] 1049 restores the saved column");
             // same absolute line as at save time
-            assert!((post_len - rows) + s.row == (plen - prows) + sv.row, "[C16][C17] 1049 puts the cursor back on the same line of the primary's text, also after a resize");
+            kv_assert!((post_len - rows) + s.row == (plen - prows) + sv.row, "[C16][C17] 1049 puts the cursor back on the same line of the primary's text, also after a resize");
         } else if prows == rows {
-            assert!(s.col == pre.col && s.row == pre.row, "[C16] 47/1047 l leave the cursor where it is");
+            kv_assert!(s.col == pre.col && s.row == pre.row, "[C16] 47/1047 l leave the cursor where it is");
         }
-        assert!(dl_get(&t.dirty_lines, any_in(0, rows - 1)), "[C15] a screen switch reports every row as changed");
+        kv_assert!(dl_get(&t.dirty_lines, any_in(0, rows - 1)), "[C15] a screen switch reports every row as changed");
     } else {
         // already on the requested screen: only the cursor context part of 1049 acts
-        assert!(s.other_len == pre.other_len && b_cell(&t.other_buffer, pi, pc) == parked_cell && b_wrapped(&t.other_buffer, pi) == parked_mark, "[C16] the parked screen is untouched");
+        kv_assert!(s.other_len == pre.other_len && b_cell(&t.other_buffer, pi, pc) == parked_cell && b_wrapped(&t.other_buffer, pi) == parked_mark, "[C16] the parked screen is untouched");
         if !entering {
             // (whether a repeated *entry* re-blanks the alternate screen is left open by the statement)
-            assert!(s.len == pre.len && cell_at(&t, w.i, w.c) == act_cell && mark_at(&t, w.i) == act_mark, "[C16] re-selecting the primary screen changes no cell of it");
+            kv_assert!(s.len == pre.len && cell_at(&t, w.i, w.c) == act_cell && mark_at(&t, w.i) == act_mark, "[C16] re-selecting the primary screen changes no cell of it");
         }
         if op == Enter1049 {
-            assert!(s.saved == cur_ctx && s.alt_saved == pre.alt_saved, "[C17] 1049 h saves the cursor of the active screen");
+            kv_assert!(s.saved == cur_ctx && s.alt_saved == pre.alt_saved, "[C17] 1049 h saves the cursor of the active screen");
         } else if op == Leave1049 {
             let sv = pre.saved;
-            assert!(s.col == sv.col && s.row == sv.row && s.pen == sv.pen && s.origin == sv.origin && s.auto_wrap == sv.auto_wrap && !s.pending_wrap, "[C17] 1049 l restores the saved cursor of the active screen");
+            kv_assert!(s.col == sv.col && s.row == sv.row && s.pen == sv.pen && s.origin == sv.origin && s.auto_wrap == sv.auto_wrap && !s.pending_wrap, "[C17] 1049 l restores the saved cursor of the active screen");
         } else {
-            assert!(s.saved == pre.saved && s.alt_saved == pre.alt_saved, "[C17] saved cursors are untouched");
+            kv_assert!(s.saved == pre.saved && s.alt_saved == pre.alt_saved, "[C17] saved cursors are untouched");
         }
     }
     // common frame
-    assert!(s.cols == pre.cols && s.rows == pre.rows, "[C02] the size changes only by resize");
-    assert!(s.insert == pre.insert && s.new_line == pre.new_line && s.app_keys == pre.app_keys && s.visible == pre.visible, "[FR] other modes are unchanged");
-    assert!(s.top == pre.top && s.bottom == pre.bottom, "[FR] margins are unchanged");
-    assert!(s.tabs_len == pre.tabs_len && (pre.tabs_len == 0 || tabs_vec(&t.tabs)[tw.j] == tw.v), "[FR] tab stops are unchanged");
+    kv_assert!(s.cols == pre.cols && s.rows == pre.rows, "[C02] the size changes only by resize");
+    kv_assert!(s.insert == pre.insert && s.new_line == pre.new_line && s.app_keys == pre.app_keys && s.visible == pre.visible, "[FR] other modes are unchanged");
+    kv_assert!(s.top == pre.top && s.bottom == pre.bottom, "[FR] margins are unchanged");
+    kv_assert!(s.tabs_len == pre.tabs_len && (pre.tabs_len == 0 || tabs_vec(&t.tabs)[tw.j] == tw.v), "[FR] tab stops are unchanged");
     assert_inv(&t);
     kv_cover!(pre.col == cols, "wrap-pending column");
     kv_cover!(pre.pen.background.is_some(), "pen with a background colour");
@@ -1607,23 +1607,23 @@ pub(crate) fn t_ctx(c: TCfg, op: CtxOp) {
                 origin: pre.origin,
                 auto_wrap: pre.auto_wrap,
             };
-            assert!(s.saved == want, "[C17] saving records exactly the column, row, pen, origin mode and auto-wrap mode in force");
-            assert!(s.alt_saved == pre.alt_saved && s.alt == pre.alt, "[C17] saving touches only the active screen's saved context");
+            kv_assert!(s.saved == want, "[C17] saving records exactly the column, row, pen, origin mode and auto-wrap mode in force");
+            kv_assert!(s.alt_saved == pre.alt_saved && s.alt == pre.alt, "[C17] saving touches only the active screen's saved context");
         }
         Decrc | Scorc | Restore1048 => {
             let sv = pre.saved;
-            assert!(s.col == sv.col && s.row == sv.row && !s.pending_wrap, "[C17] restoring re-establishes the saved position");
-            assert!(s.pen == sv.pen && s.origin == sv.origin && s.auto_wrap == sv.auto_wrap, "[C17] restoring re-establishes the saved pen, origin mode and auto-wrap mode");
-            assert!(s.saved == pre.saved && s.alt_saved == pre.alt_saved && s.alt == pre.alt, "[C17] restoring keeps both saved contexts");
-            assert!(s.insert == pre.insert && s.new_line == pre.new_line && s.app_keys == pre.app_keys, "[FR] other modes are unchanged");
+            kv_assert!(s.col == sv.col && s.row == sv.row && !s.pending_wrap, "[C17] restoring re-establishes the saved position");
+            kv_assert!(s.pen == sv.pen && s.origin == sv.origin && s.auto_wrap == sv.auto_wrap, "[C17] restoring re-establishes the saved pen, origin mode and auto-wrap mode");
+            kv_assert!(s.saved == pre.saved && s.alt_saved == pre.alt_saved && s.alt == pre.alt, "[C17] restoring keeps both saved contexts");
+            kv_assert!(s.insert == pre.insert && s.new_line == pre.new_line && s.app_keys == pre.app_keys, "[FR] other modes are unchanged");
             allow.cursor = true;
             allow.pen = true;
             allow.modes = true;
         }
         Decstr => {
             let d = ctx_of(&SavedCtx::default());
-            assert!(s.saved == d, "[C17] soft reset empties the active screen's saved context (restoring then gives the power-on defaults)");
-            assert!(s.alt_saved == pre.alt_saved && s.alt == pre.alt, "[C17][C16] soft reset leaves the other screen's saved context alone");
+            kv_assert!(s.saved == d, "[C17] soft reset empties the active screen's saved context (restoring then gives the power-on defaults)");
+            kv_assert!(s.alt_saved == pre.alt_saved && s.alt == pre.alt, "[C17][C16] soft reset leaves the other screen's saved context alone");
             // which modes a soft reset restores is not part of any property: not asserted
             allow.cursor = true;
             allow.visible = true;
@@ -1655,34 +1655,34 @@ pub(crate) fn t_ris(c: TCfg) {
     let f = Terminal::new((cols, rows), configured);
     let s = snap(&t);
     let g = snap(&f);
-    assert!(s.cols == g.cols && s.rows == g.rows, "[C19] RIS keeps the current size");
-    assert!(s.col == 0 && s.row == 0 && s.visible && !s.pending_wrap, "[C19] after RIS the cursor is home and visible");
-    assert!(s.pen == Pen::default(), "[C19] after RIS the pen is the default pen");
-    assert!(!s.g0_drawing && !s.g1_drawing && s.active_charset == 0, "[C19] after RIS the character sets are the defaults");
-    assert!(!s.insert && !s.origin && s.auto_wrap && !s.new_line, "[C19] after RIS all modes are reset");
-    assert!(!s.app_keys, "[C19] after RIS the cursor-key mode is reset");
-    assert!(s.top == 0 && s.bottom == rows - 1, "[C19] after RIS the margins span the full screen");
+    kv_assert!(s.cols == g.cols && s.rows == g.rows, "[C19] RIS keeps the current size");
+    kv_assert!(s.col == 0 && s.row == 0 && s.visible && !s.pending_wrap, "[C19] after RIS the cursor is home and visible");
+    kv_assert!(s.pen == Pen::default(), "[C19] after RIS the pen is the default pen");
+    kv_assert!(!s.g0_drawing && !s.g1_drawing && s.active_charset == 0, "[C19] after RIS the character sets are the defaults");
+    kv_assert!(!s.insert && !s.origin && s.auto_wrap && !s.new_line, "[C19] after RIS all modes are reset");
+    kv_assert!(!s.app_keys, "[C19] after RIS the cursor-key mode is reset");
+    kv_assert!(s.top == 0 && s.bottom == rows - 1, "[C19] after RIS the margins span the full screen");
     let d = ctx_of(&SavedCtx::default());
-    assert!(s.saved == d && s.alt_saved == d, "[C19] after RIS both screens' saved contexts are empty");
-    assert!(!s.alt, "[C19] after RIS the primary screen is showing");
-    assert!(s.len == rows && s.other_len == rows && s.other_rows == rows, "[C19] after RIS the scrollback is empty and both screens have the current size");
-    assert!(!s.trim_needed && !s.other_trim_needed, "[C19] after RIS nothing is pending for trimming");
+    kv_assert!(s.saved == d && s.alt_saved == d, "[C19] after RIS both screens' saved contexts are empty");
+    kv_assert!(!s.alt, "[C19] after RIS the primary screen is showing");
+    kv_assert!(s.len == rows && s.other_len == rows && s.other_rows == rows, "[C19] after RIS the scrollback is empty and both screens have the current size");
+    kv_assert!(!s.trim_needed && !s.other_trim_needed, "[C19] after RIS nothing is pending for trimming");
     let w = any_wit(rows, cols);
-    assert!(cell_at(&t, w.i, w.c) == Cell::default() && !mark_at(&t, w.i), "[C19] after RIS the primary screen is blank");
-    assert!(b_cell(&t.other_buffer, w.i, w.c) == Cell::default() && !b_wrapped(&t.other_buffer, w.i), "[C19] after RIS the alternate screen is blank");
-    assert!(b_limit(&t.buffer) == b_limit(&f.buffer) && b_limit(&t.other_buffer) == b_limit(&f.other_buffer), "[C19] after RIS the scrollback configuration is that of a fresh terminal");
+    kv_assert!(cell_at(&t, w.i, w.c) == Cell::default() && !mark_at(&t, w.i), "[C19] after RIS the primary screen is blank");
+    kv_assert!(b_cell(&t.other_buffer, w.i, w.c) == Cell::default() && !b_wrapped(&t.other_buffer, w.i), "[C19] after RIS the alternate screen is blank");
+    kv_assert!(b_limit(&t.buffer) == b_limit(&f.buffer) && b_limit(&t.other_buffer) == b_limit(&f.other_buffer), "[C19] after RIS the scrollback configuration is that of a fresh terminal");
     // tabs == Tabs::new(cols)
     let tv = tabs_vec(&t.tabs);
     let fv = tabs_vec(&f.tabs);
-    assert!(tv.len() == fv.len(), "[C19] after RIS the tab stops are the defaults");
+    kv_assert!(tv.len() == fv.len(), "[C19] after RIS the tab stops are the defaults");
     if !fv.is_empty() {
         let j = any_in(0, fv.len() - 1);
-        assert!(tv[j] == fv[j], "[C19] after RIS the tab stops are the defaults");
+        kv_assert!(tv[j] == fv[j], "[C19] after RIS the tab stops are the defaults");
     }
     let r = any_in(0, rows - 1);
-    assert!(dl_get(&t.dirty_lines, r) && dl_get(&f.dirty_lines, r), "[C19][C15] after RIS every row is reported as changed, as for a fresh terminal");
-    assert!(dl_len(&t.dirty_lines) == rows, "[C02] one changed-line flag per row");
-    assert!(!t.xtwinops, "[C19] XTWINOPS stays disabled");
+    kv_assert!(dl_get(&t.dirty_lines, r) && dl_get(&f.dirty_lines, r), "[C19][C15] after RIS every row is reported as changed, as for a fresh terminal");
+    kv_assert!(dl_len(&t.dirty_lines) == rows, "[C02] one changed-line flag per row");
+    kv_assert!(!t.xtwinops, "[C19] XTWINOPS stays disabled");
     assert_inv(&t);
     kv_cover!(pre.alt, "RIS from the alternate screen");
     kv_cover!(pre.app_keys, "RIS with application cursor keys");
@@ -1726,23 +1726,23 @@ pub(crate) fn t_resize_rows(c: TCfg, new_rows: usize) {
     let parked_cell = b_cell(&t.other_buffer, pi, pc);
     let resized = t.resize(cols, new_rows);
     let s = snap(&t);
-    assert!(resized == (new_rows != rows), "[C02] resize reports whether the size changed");
-    assert!(s.cols == cols && s.rows == new_rows, "[C02] size() reports the geometry last requested");
-    assert!(s.len == post_len, "[C10] a height change drops only rows below the cursor and adds only blank rows at the bottom");
+    kv_assert!(resized == (new_rows != rows), "[C02] resize reports whether the size changed");
+    kv_assert!(s.cols == cols && s.rows == new_rows, "[C02] size() reports the geometry last requested");
+    kv_assert!(s.len == post_len, "[C10] a height change drops only rows below the cursor and adds only blank rows at the bottom");
     let post = cell_at(&t, w.i, w.c);
     if let Some(x) = e.cell {
-        assert!(post == x, "[C10] a height change alters no line: every surviving line keeps its content and its place in lines()");
+        kv_assert!(post == x, "[C10] a height change alters no line: every surviving line keeps its content and its place in lines()");
     }
     if let Some(m) = e.mark {
-        assert!(mark_at(&t, w.i) == m, "[C10] a height change keeps the soft-wrap marks (the new last line is never marked)");
+        kv_assert!(mark_at(&t, w.i) == m, "[C10] a height change keeps the soft-wrap marks (the new last line is never marked)");
     }
-    assert!((post_len - new_rows) + s.row == (l - rows) + row, "[C10] the cursor stays on the same line of the text");
-    assert!(s.row == row2 && s.col == pre.col && s.pending_wrap == pre.pending_wrap, "[C10] the cursor keeps its column across a height change");
+    kv_assert!((post_len - new_rows) + s.row == (l - rows) + row, "[C10] the cursor stays on the same line of the text");
+    kv_assert!(s.row == row2 && s.col == pre.col && s.pending_wrap == pre.pending_wrap, "[C10] the cursor keeps its column across a height change");
     if new_rows != rows {
-        assert!(s.top == 0 && s.bottom == new_rows - 1, "[C05][C06] a height change resets the scroll region to the full screen");
-        assert!(dl_get(&t.dirty_lines, any_in(0, new_rows - 1)), "[C15] a resize reports every row as changed");
+        kv_assert!(s.top == 0 && s.bottom == new_rows - 1, "[C05][C06] a height change resets the scroll region to the full screen");
+        kv_assert!(dl_get(&t.dirty_lines, any_in(0, new_rows - 1)), "[C15] a resize reports every row as changed");
     } else {
-        assert!(s.top == pre.top && s.bottom == pre.bottom, "[C05][C06] an unchanged height keeps the scroll region");
+        kv_assert!(s.top == pre.top && s.bottom == pre.bottom, "[C05][C06] an unchanged height keeps the scroll region");
     }
     let want_saved = Ctx {
         col: pre.saved.col,
@@ -1751,11 +1751,11 @@ pub(crate) fn t_resize_rows(c: TCfg, new_rows: usize) {
         origin: pre.saved.origin,
         auto_wrap: pre.saved.auto_wrap,
     };
-    assert!(s.saved == want_saved, "[C17] after a resize the saved position still lies inside the screen and is otherwise untouched");
-    assert!(s.alt_saved == pre.alt_saved && s.alt == pre.alt, "[C17][C16] the other screen's saved context is untouched by a resize");
-    assert!(s.other_len == pre.other_len && s.other_rows == pre.other_rows && b_cell(&t.other_buffer, pi, pc) == parked_cell, "[C16] a resize does not touch the parked screen");
-    assert!(s.pen == pre.pen && s.insert == pre.insert && s.origin == pre.origin && s.auto_wrap == pre.auto_wrap && s.new_line == pre.new_line && s.app_keys == pre.app_keys && s.visible == pre.visible, "[FR] a resize changes no mode and no pen");
-    assert!(s.tabs_len == pre.tabs_len && (pre.tabs_len == 0 || tabs_vec(&t.tabs)[tw.j] == tw.v), "[C18] a height change keeps the tab stops");
+    kv_assert!(s.saved == want_saved, "[C17] after a resize the saved position still lies inside the screen and is otherwise untouched");
+    kv_assert!(s.alt_saved == pre.alt_saved && s.alt == pre.alt, "[C17][C16] the other screen's saved context is untouched by a resize");
+    kv_assert!(s.other_len == pre.other_len && s.other_rows == pre.other_rows && b_cell(&t.other_buffer, pi, pc) == parked_cell, "[C16] a resize does not touch the parked screen");
+    kv_assert!(s.pen == pre.pen && s.insert == pre.insert && s.origin == pre.origin && s.auto_wrap == pre.auto_wrap && s.new_line == pre.new_line && s.app_keys == pre.app_keys && s.visible == pre.visible, "[FR] a resize changes no mode and no pen");
+    kv_assert!(s.tabs_len == pre.tabs_len && (pre.tabs_len == 0 || tabs_vec(&t.tabs)[tw.j] == tw.v), "[C18] a height change keeps the tab stops");
     assert_inv(&t);
     kv_cover!(pre.col == cols, "wrap-pending column");
     kv_cover!(pre.alt, "alternate screen");
@@ -1778,9 +1778,9 @@ pub(crate) fn t_resize_glue(c: TCfg, new_cols: usize, new_rows: usize) {
     }
     let resized = t.resize(new_cols, new_rows);
     let s = snap(&t);
-    assert!(resized == (new_cols != cols || new_rows != rows), "[C02] resize reports whether the size changed");
-    assert!(s.cols == new_cols && s.rows == new_rows, "[C02] size() reports the geometry last requested");
-    assert!(s.col < new_cols && s.row < new_rows && (new_cols == cols || !s.pending_wrap), "[C02] after a width change the cursor lies inside the screen with no wrap pending");
+    kv_assert!(resized == (new_cols != cols || new_rows != rows), "[C02] resize reports whether the size changed");
+    kv_assert!(s.cols == new_cols && s.rows == new_rows, "[C02] size() reports the geometry last requested");
+    kv_assert!(s.col < new_cols && s.row < new_rows && (new_cols == cols || !s.pending_wrap), "[C02] after a width change the cursor lies inside the screen with no wrap pending");
     let mut probe_after = false;
     for x in tabs_vec(&t.tabs).iter() {
         if *x == probe {
@@ -1794,16 +1794,16 @@ pub(crate) fn t_resize_glue(c: TCfg, new_cols: usize, new_rows: usize) {
     } else {
         false
     };
-    assert!(probe_after == want, "[C18] narrowing discards the stops of the lost columns, widening adds the default stops of the new columns and keeps every surviving stop");
+    kv_assert!(probe_after == want, "[C18] narrowing discards the stops of the lost columns, widening adds the default stops of the new columns and keeps every surviving stop");
     if new_rows == rows {
-        assert!(s.top == pre.top && s.bottom == pre.bottom, "[C05][C06] a width-only change keeps the scroll region");
+        kv_assert!(s.top == pre.top && s.bottom == pre.bottom, "[C05][C06] a width-only change keeps the scroll region");
     } else {
-        assert!(s.top == 0 && s.bottom == new_rows - 1, "[C05][C06] a height change resets the scroll region to the full screen");
+        kv_assert!(s.top == 0 && s.bottom == new_rows - 1, "[C05][C06] a height change resets the scroll region to the full screen");
     }
-    assert!(s.saved.col == if pre.saved.col >= new_cols { new_cols - 1 } else { pre.saved.col }, "[C17] after a resize the saved column still lies inside the screen");
-    assert!(s.saved.row == if pre.saved.row >= new_rows { new_rows - 1 } else { pre.saved.row }, "[C17] after a resize the saved row still lies inside the screen");
-    assert!(s.saved.pen == pre.saved.pen && s.saved.origin == pre.saved.origin && s.saved.auto_wrap == pre.saved.auto_wrap && s.alt_saved == pre.alt_saved, "[C17] a resize changes nothing else of the saved contexts");
-    assert!(dl_len(&t.dirty_lines) == new_rows && dl_get(&t.dirty_lines, any_in(0, new_rows - 1)), "[C15][C02] a resize reports every row of the new screen as changed");
+    kv_assert!(s.saved.col == if pre.saved.col >= new_cols { new_cols - 1 } else { pre.saved.col }, "[C17] after a resize the saved column still lies inside the screen");
+    kv_assert!(s.saved.row == if pre.saved.row >= new_rows { new_rows - 1 } else { pre.saved.row }, "[C17] after a resize the saved row still lies inside the screen");
+    kv_assert!(s.saved.pen == pre.saved.pen && s.saved.origin == pre.saved.origin && s.saved.auto_wrap == pre.saved.auto_wrap && s.alt_saved == pre.alt_saved, "[C17] a resize changes nothing else of the saved contexts");
+    kv_assert!(dl_len(&t.dirty_lines) == new_rows && dl_get(&t.dirty_lines, any_in(0, new_rows - 1)), "[C15][C02] a resize reports every row of the new screen as changed");
     kv_cover!(pre.col == cols, "wrap-pending column before the resize");
     kv_end!();
     forget(t);
@@ -1829,19 +1829,19 @@ pub(crate) fn t_changes(c: TCfg) {
         if *x == r {
             reported = true;
         }
-        assert!(*x < rows, "[C02] changed-line indices are smaller than rows");
+        kv_assert!(*x < rows, "[C02] changed-line indices are smaller than rows");
     }
     if ch.len() >= 2 {
         let j = any_in(0, ch.len() - 2);
-        assert!(ch[j] < ch[j + 1], "[C02] changed-line indices are strictly increasing");
+        kv_assert!(ch[j] < ch[j + 1], "[C02] changed-line indices are strictly increasing");
     }
-    assert!(reported == was_dirty, "[C15] changes() reports exactly the flagged rows");
-    assert!(!dl_get(&t.dirty_lines, r), "[C15] changes() clears the flags");
+    kv_assert!(reported == was_dirty, "[C15] changes() reports exactly the flagged rows");
+    kv_assert!(!dl_get(&t.dirty_lines, r), "[C15] changes() clears the flags");
     std::mem::forget(ch);
     let allow = Allow::default();
     frame(&pre, &t, &allow, &tw);
     let post = cell_at(&t, w.i, w.c);
-    assert!(Some(post) == e.cell && Some(mark_at(&t, w.i)) == e.mark, "[C12] reading the changed lines changes no cell");
+    kv_assert!(Some(post) == e.cell && Some(mark_at(&t, w.i)) == e.mark, "[C12] reading the changed lines changes no cell");
     assert_inv(&t);
     kv_end!();
     forget(t);
@@ -1887,7 +1887,7 @@ pub(crate) fn t_gc(c: TCfg, drain: bool, tn: bool) {
         if drain {
             for line in it {
                 if yielded == j && excess > 0 {
-                    assert!(line.cells[jc] == out_cell && line.wrapped == out_mark, "[C14] scrolled-off lines are handed out unchanged and in order");
+                    kv_assert!(line.cells[jc] == out_cell && line.wrapped == out_mark, "[C14] scrolled-off lines are handed out unchanged and in order");
                 }
                 yielded += 1;
                 std::mem::forget(line);
@@ -1897,18 +1897,18 @@ pub(crate) fn t_gc(c: TCfg, drain: bool, tn: bool) {
         }
     }
     if drain {
-        assert!(yielded == if pre.alt { 0 } else { excess }, "[C14] exactly the lines removed from the primary's scrollback are handed out, none while the alternate screen shows");
+        kv_assert!(yielded == if pre.alt { 0 } else { excess }, "[C14] exactly the lines removed from the primary's scrollback are handed out, none while the alternate screen shows");
     }
     let s = snap(&t);
-    assert!(s.len == post_len, "[C14][C13] trimming removes exactly the oldest lines beyond the soft limit, whether or not the iterator is consumed");
-    assert!(cell_at(&t, w.i, w.c) == kept && mark_at(&t, w.i) == kept_mark, "[C14][C12] lines that stay keep their content and order");
+    kv_assert!(s.len == post_len, "[C14][C13] trimming removes exactly the oldest lines beyond the soft limit, whether or not the iterator is consumed");
+    kv_assert!(cell_at(&t, w.i, w.c) == kept && mark_at(&t, w.i) == kept_mark, "[C14][C12] lines that stay keep their content and order");
     if let Some((soft, hard)) = lim {
-        assert!(s.len - rows <= hard, "[C13] after the call lines() holds at most rows + L + L/10 lines");
+        kv_assert!(s.len - rows <= hard, "[C13] after the call lines() holds at most rows + L + L/10 lines");
         if soft == 0 {
-            assert!(s.len == rows, "[C13] with limit 0 (and on the alternate screen) lines() is exactly the visible rows");
+            kv_assert!(s.len == rows, "[C13] with limit 0 (and on the alternate screen) lines() is exactly the visible rows");
         }
     } else {
-        assert!(s.len == pre.len, "[C12] with unlimited scrollback gc removes nothing");
+        kv_assert!(s.len == pre.len, "[C12] with unlimited scrollback gc removes nothing");
     }
     let mut allow = Allow::default();
     allow.len = true;
@@ -1927,12 +1927,12 @@ pub(crate) fn t_base(cols: usize, rows: usize, limit: usize) {
     let t = Terminal::new((cols, rows), Some(limit));
     assert_inv(&t);
     let s = snap(&t);
-    assert!(s.len == rows && s.other_len == rows && !s.alt && s.col == 0 && s.row == 0 && s.visible && !s.pending_wrap, "[C02][C19] a fresh terminal shows a blank primary screen with the cursor home");
-    assert!(s.top == 0 && s.bottom == rows - 1 && s.auto_wrap && !s.insert && !s.origin && !s.new_line && !s.app_keys, "[C19] a fresh terminal has default modes and full-screen margins");
+    kv_assert!(s.len == rows && s.other_len == rows && !s.alt && s.col == 0 && s.row == 0 && s.visible && !s.pending_wrap, "[C02][C19] a fresh terminal shows a blank primary screen with the cursor home");
+    kv_assert!(s.top == 0 && s.bottom == rows - 1 && s.auto_wrap && !s.insert && !s.origin && !s.new_line && !s.app_keys, "[C19] a fresh terminal has default modes and full-screen margins");
     let w = any_wit(rows, cols);
-    assert!(cell_at(&t, w.i, w.c) == Cell::default() && !mark_at(&t, w.i), "[C19] a fresh terminal is blank");
-    assert!(dl_get(&t.dirty_lines, any_in(0, rows - 1)), "[C15] a fresh terminal reports every row as changed");
-    assert!(b_limit(&t.buffer) == Some((limit, limit + limit / 10)) && b_limit(&t.other_buffer) == Some((0, 0)), "[C13] the primary gets the configured limit (+10% slack), the alternate screen none");
+    kv_assert!(cell_at(&t, w.i, w.c) == Cell::default() && !mark_at(&t, w.i), "[C19] a fresh terminal is blank");
+    kv_assert!(dl_get(&t.dirty_lines, any_in(0, rows - 1)), "[C15] a fresh terminal reports every row as changed");
+    kv_assert!(b_limit(&t.buffer) == Some((limit, limit + limit / 10)) && b_limit(&t.other_buffer) == Some((0, 0)), "[C13] the primary gets the configured limit (+10% slack), the alternate screen none");
     kv_end!();
     forget(t);
 }
@@ -1942,8 +1942,8 @@ pub(crate) fn t_base_unlimited(cols: usize, rows: usize) {
     let t = Terminal::new((cols, rows), None);
     assert_inv(&t);
     let s = snap(&t);
-    assert!(s.len == rows && s.other_len == rows && !s.alt, "[C02][C19] a fresh terminal shows a blank primary screen");
-    assert!(b_limit(&t.buffer).is_none() && b_limit(&t.other_buffer) == Some((0, 0)), "[C13] unlimited primary, no scrollback on the alternate screen");
+    kv_assert!(s.len == rows && s.other_len == rows && !s.alt, "[C02][C19] a fresh terminal shows a blank primary screen");
+    kv_assert!(b_limit(&t.buffer).is_none() && b_limit(&t.other_buffer) == Some((0, 0)), "[C13] unlimited primary, no scrollback on the alternate screen");
     kv_end!();
     forget(t);
 }
@@ -1954,8 +1954,8 @@ pub(crate) fn t_base_any(cols: usize, rows: usize) {
     let t = Terminal::new((cols, rows), Some(limit));
     assert_inv(&t);
     let s = snap(&t);
-    assert!(s.len == rows && s.other_len == rows && !s.alt && s.col == 0 && s.row == 0, "[C02][C19] a fresh terminal shows a blank primary screen with the cursor home");
-    assert!(b_limit(&t.buffer).map(|l| l.0) == Some(limit) && b_limit(&t.other_buffer) == Some((0, 0)), "[C13] the primary gets the configured limit, the alternate screen none");
+    kv_assert!(s.len == rows && s.other_len == rows && !s.alt && s.col == 0 && s.row == 0, "[C02][C19] a fresh terminal shows a blank primary screen with the cursor home");
+    kv_assert!(b_limit(&t.buffer).map(|l| l.0) == Some(limit) && b_limit(&t.other_buffer) == Some((0, 0)), "[C13] the primary gets the configured limit, the alternate screen none");
     kv_cover!(limit > (1usize << 62), "huge limit");
     kv_end!();
     forget(t);
@@ -2066,8 +2066,8 @@ pub(crate) fn t_sgr(c: TCfg, k: usize) {
         ops.push(op);
     }
     t.execute(Function::Sgr(ops));
-    assert!(view_of(&t.pen) == want, "[C08] the pen is the left-to-right fold of the SGR operations received");
-    assert!(pen_ok(&t.pen), "[C02] attribute bits stay within the five attributes");
+    kv_assert!(view_of(&t.pen) == want, "[C08] the pen is the left-to-right fold of the SGR operations received");
+    kv_assert!(pen_ok(&t.pen), "[C02] attribute bits stay within the five attributes");
     let mut allow = Allow::default();
     allow.pen = true;
     frame(&pre, &t, &allow, &tw);
@@ -2145,7 +2145,7 @@ pub(crate) fn t_plain(c: TCfg, step: PlainStep) {
             t.execute(Function::Lf);
         }
     }
-    assert!(b_len(&t.buffer) == post_len, "[C09] a line is added exactly when the text moves past the last row");
+    kv_assert!(b_len(&t.buffer) == post_len, "[C09] a line is added exactly when the text moves past the last row");
     let (tgt_i, tgt_c) = match step {
         PlainStep::Print => (abs, col),
         PlainStep::PrintWrap => (abs + 1, 0),
@@ -2153,11 +2153,11 @@ pub(crate) fn t_plain(c: TCfg, step: PlainStep) {
     };
     let got = cell_at(&t, w.i, w.c);
     if w.i == tgt_i && w.c == tgt_c {
-        assert!(got.char() == ch && *got.pen() == pre.pen, "[C09] the character lands in the next cell of the text");
+        kv_assert!(got.char() == ch && *got.pen() == pre.pen, "[C09] the character lands in the next cell of the text");
     } else {
         match before {
-            Some((cb, _)) => assert!(got == cb, "[C09] plain text changes no other cell, however much has scrolled"),
-            None => assert!(got.char() == ' ', "[C09] a line appended by scrolling is blank"),
+            Some((cb, _)) => kv_assert!(got == cb, "[C09] plain text changes no other cell, however much has scrolled"),
+            None => kv_assert!(got.char() == ' ', "[C09] a line appended by scrolling is blank"),
         }
     }
     let want_mark = if step == PlainStep::PrintWrap && w.i == abs {
@@ -2168,34 +2168,34 @@ pub(crate) fn t_plain(c: TCfg, step: PlainStep) {
             None => false,
         }
     };
-    assert!(mark_at(&t, w.i) == want_mark, "[C09] exactly the rows left by auto-wrap are soft-wrapped, and the mark survives the trip into the scrollback");
+    kv_assert!(mark_at(&t, w.i) == want_mark, "[C09] exactly the rows left by auto-wrap are soft-wrapped, and the mark survives the trip into the scrollback");
     // cursor in absolute coordinates
     let o2 = post_len - rows;
     let cur_abs = o2 + t.cursor.row;
     match step {
         PlainStep::Print => {
-            assert!(cur_abs == abs && t.cursor.col == col + 1 && t.pending_wrap == (col + 1 == cols), "[C09] the cursor follows the text");
+            kv_assert!(cur_abs == abs && t.cursor.col == col + 1 && t.pending_wrap == (col + 1 == cols), "[C09] the cursor follows the text");
         }
         PlainStep::PrintWrap => {
-            assert!(cur_abs == abs + 1 && t.cursor.col == 1 && t.pending_wrap == (cols == 1), "[C09] the cursor follows the text onto the next row");
+            kv_assert!(cur_abs == abs + 1 && t.cursor.col == 1 && t.pending_wrap == (cols == 1), "[C09] the cursor follows the text onto the next row");
         }
         PlainStep::CrLf => {
-            assert!(cur_abs == abs + 1 && t.cursor.col == 0 && !t.pending_wrap, "[C09] CR LF starts the next line");
+            kv_assert!(cur_abs == abs + 1 && t.cursor.col == 0 && !t.pending_wrap, "[C09] CR LF starts the next line");
         }
     }
     // P4: Plain again
     let cr = t.cursor.row;
     let ccol = t.cursor.col;
-    assert!(!mark_at(&t, cur_abs), "[C09] the row being written is not soft-wrapped");
+    kv_assert!(!mark_at(&t, cur_abs), "[C09] the row being written is not soft-wrapped");
     let pc = any_in(0, cols - 1);
     if pc >= ccol {
-        assert!(cell_at(&t, cur_abs, pc).char() == ' ', "[C09] nothing but spaces lies right of the cursor");
+        kv_assert!(cell_at(&t, cur_abs, pc).char() == ' ', "[C09] nothing but spaces lies right of the cursor");
     }
     let pr = any_in(0, rows - 1);
     if pr > cr {
-        assert!(cell_at(&t, o2 + pr, pc).char() == ' ' && !mark_at(&t, o2 + pr), "[C09] rows below the cursor stay blank and unwrapped");
+        kv_assert!(cell_at(&t, o2 + pr, pc).char() == ' ' && !mark_at(&t, o2 + pr), "[C09] rows below the cursor stay blank and unwrapped");
     }
-    assert!(t.auto_wrap_mode && !t.insert_mode && !t.origin_mode && !t.new_line_mode && t.top_margin == 0 && t.bottom_margin == rows - 1 && t.active_charset == 0, "[C09] plain text changes no mode");
+    kv_assert!(t.auto_wrap_mode && !t.insert_mode && !t.origin_mode && !t.new_line_mode && t.top_margin == 0 && t.bottom_margin == rows - 1 && t.active_charset == 0, "[C09] plain text changes no mode");
     let mut allow = Allow::default();
     allow.cursor = true;
     allow.len = true;
